@@ -33,6 +33,12 @@ theorem hardRestartGuard_sound (useRestarts useSoft able : Bool) (nf maxfun nrun
   obtain ⟨⟨⟨⟨a, b⟩, c⟩, d⟩, e⟩ := h
   exact ⟨c, a, b, d, e⟩
 
+/-- the default growing method is switched to the perturbation of the trust-region step (which draws random
+    directions) exactly for inverse problems, `m < n` — as documented ("Default is False if m ≥ n and True otherwise") -/
+theorem growingSwitch_iff (m n : Int) : Gen.growingSwitchToPerturb m n = true ↔ m < n := by
+  unfold Gen.growingSwitchToPerturb
+  simp
+
 example : Gen.softRestartRefusal 3 0 10 50 50 = some (1, "Objective has been called MAXFUN times") := by decide
 example : Gen.softRestartRefusal 12 2 10 50 50 = some (0, "Reached maximum number of unsuccessful restarts") := by decide
 example : Gen.softRestartRefusal 3 0 10 49 50 = none := by decide
